@@ -119,6 +119,10 @@ def build_topology(case):
         mols.append(meta)
         top.volumes["R" + spec["name"]] = 0.4
     top.molecules = mols
+    # build-file distance restraints: BuildSystem.run_system (set_restraints) reads molecule.search_tree BEFORE
+    # the walk of the molecule starts, i.e. the tree is computed and cached at that moment
+    for idx, ref, target in case.get("restraints", []):
+        top.distance_restraints[(case["mols"][idx]["name"], idx)][(ref, target)] = (1.0, 5.0)
     return top
 
 
@@ -171,6 +175,33 @@ def internal_miscount(engine):
     return sorted(bad), missing
 
 
+def tree_mismatch(engine):
+    """What the force / overlap queries see: the points held by the engine's KD-trees (`position_trees[*].data`)
+    must be exactly the finite rows of the position table -- a residue that was removed must not stay in a
+    search tree (it would still repel), a positioned one must be in one.  Returns None when equal or not
+    observable in the expected form (then the second value is True), else a short description."""
+    trees = getattr(engine, "position_trees", None)
+    table = getattr(engine, "positions", None)
+    if not isinstance(trees, list) or table is None:
+        return None, True
+    try:
+        table = np.asarray(table, dtype=float)
+        have = sorted(tuple(float(x) for x in row) for row in table if np.all(np.isfinite(row)))
+        seen = []
+        for tree in trees:
+            data = np.asarray(tree.data, dtype=float).reshape(-1, 3)
+            seen += [tuple(float(x) for x in row) for row in data]
+        seen.sort()
+    except Exception:  # pylint: disable=broad-except
+        return None, True
+    if seen == have:
+        return None, False
+    stale = [p for p in seen if p not in have]
+    lost = [p for p in have if p not in seen]
+    return "search trees hold %d point(s) the position table no longer has %s, lack %d positioned point(s) %s" % (
+        len(stale), [point_id(np.array(p)) for p in stale[:4]], len(lost), [point_id(np.array(p)) for p in lost[:4]]), False
+
+
 _LOWERED = {}
 
 
@@ -211,10 +242,16 @@ class Recorder:
         self.idle_attempts = 0
         self.notes = []
         self.returns = []          # [mol_idx, success] of every completed call of _handle_random_walk
+        self.tree_problems = []    # (index of the trace entry, description): KD-tree contents vs position table
+        self.trees_unobservable = False
 
     def at_trial(self, walker, trial):
         self.idle_attempts = 0
         self.trace.append(dict(trial=trial, eng=snapshot(walker.nonbond_matrix, self.top, self.case["ignore"])))
+        problem, hidden = tree_mismatch(walker.nonbond_matrix)
+        self.trees_unobservable = self.trees_unobservable or hidden
+        if problem:
+            self.tree_problems.append((len(self.trace) - 1, problem))
         if self.used >= len(self.sched):
             raise Exhausted()
         outcome = self.sched[self.used]
@@ -341,6 +378,14 @@ def run_real(case):
         else:
             paths.append(None)
             firsts.append(None)
+    if engine is not None and (result["finished"] or result["stuck"]):
+        problem, hidden = tree_mismatch(engine)
+        rec.trees_unobservable = rec.trees_unobservable or hidden
+        if problem:
+            rec.tree_problems.append((len(rec.trace) - 1, problem))
+    if rec.trees_unobservable:
+        notes.append("search_trees_not_observable")
+    result["tree_problems"] = rec.tree_problems
     returns = rec.returns if handle_seen and None not in rec.returns else None
     result.update(trace=rec.trace, used=rec.used, writeback=writeback, paths=paths, firsts=firsts, adjs=adjs,
                   returns=returns)
@@ -418,6 +463,10 @@ def judge(ctx, case, real, run_ans, spec_ans):
         state = impl_trace[idx] if idx < len(impl_trace) else None
         ctx.oracle_fail(name, "%s at trial %d of schedule %s (nrewind=%s): state %s"
                         % (name, idx, _bits(case["sched"][:real["used"]]), case["nrewind"], json.dumps(state)[:300]), replay)
+    for idx, text in real.get("tree_problems", [])[:1]:
+        ctx.oracle_fail("removed-residue-still-in-search-tree", "at trial %d of schedule %s (nrewind=%s, bs_maxiter=%s): %s; "
+                        "state %s" % (idx, _bits(case["sched"][:real["used"]]), case["nrewind"], case.get("bs_maxiter"), text,
+                                      json.dumps(impl_trace[idx] if idx < len(impl_trace) else None)[:200]), replay)
     if real["miscounted"] and not real["error"]:
         ctx.oracle_fail("residue-not-listed-exactly-once", "engine index lists hold the global indices %s not exactly "
                         "once after schedule %s" % (real["miscounted"][:10], _bits(case["sched"][:real["used"]])), replay)
@@ -443,6 +492,7 @@ def judge(ctx, case, real, run_ans, spec_ans):
              ignored=bool(case["ignore"]), dfs=any(s["dfs"] for s in case["mols"]),
              consumed=_bucket(real["used"]), failures=_bucket(fails), end=impl_end.split(":")[0],
              bs_maxiter=case.get("bs_maxiter"), tree_threshold=case.get("tree_threshold"),
+             restraints=bool(case.get("restraints")),
              attempts_abandoned=_bucket(_abandoned(impl_trace)),
              stream=case.get("stream", "?"))
 
@@ -552,8 +602,15 @@ def gen_system(rng, max_mols, max_n, small=False):
     bs_maxiter = rng.choice([None, None, 0, 1, 2])
     # size above which the first residue of a molecule opens a new position tree (None = the real 5000)
     tree_threshold = rng.choice([None, None, 0, 1, 2, 4])
+    # distance restraints (first residue of the molecule -> another residue; the first residue is the root of
+    # the search tree, hence an ancestor of every other one) on molecules without an explicit start residue
+    restraints = []
+    if rng.random() < 0.3:
+        for idx, mol in enumerate(mols):
+            if mol["name"] not in ignore and mol["start"] is None and len(mol["nodes"]) >= 2 and rng.random() < 0.6:
+                restraints.append([idx, mol["nodes"][0], rng.choice(mol["nodes"][1:])])
     return dict(mols=mols, ignore=ignore, nrewind=nrewind, maxiter=maxiter, bs_maxiter=bs_maxiter,
-                tree_threshold=tree_threshold)
+                tree_threshold=tree_threshold, restraints=restraints)
 
 
 def random_schedule(rng, length):
